@@ -69,6 +69,13 @@ static VariablePtr mkVar()
     }
     int it = symInt(5, 0, 4, 4);
     if (it < 4) v->setInterfaceType((Variable::InterfaceType)it);
+    if (ATTR == 6 || ATTR == 7) {
+        // units given as an object: same name on both sides, differing (symbolically) in the id or in having a unit child
+        auto u = Units::create("w");
+        u->setId(sym(6, 'i'));
+        if (symInt(7, 0, 1, 0)) u->addUnit("metre");
+        v->setUnits(u);
+    }
     return v;
 }
 static ResetPtr mkReset(const VariablePtr &v1, const VariablePtr &v2)
